@@ -375,6 +375,18 @@ func runOneAtATime(c Case) *h.Result {
 		if !same(want, got) {
 			return h.Fail("read-from-string :start %d differs on %q:\n   ReadString form %d: %s\n   got: %s", runes(c.Starts[i]), c.Text, i, want, got)
 		}
+		// the same read bounded by :end at the end of the form (and at the end of the text) gives the same object
+		for _, end := range []int{runes(c.Ends[i]), len([]rune(c.Text))} {
+			oe := ev.Eval(scope, bind(fmt.Sprintf("(multiple-value-list (read-from-string txt t nil :start %d :end %d))", runes(c.Starts[i]), end)))
+			evals++
+			ve, _ := oe.Val.(slip.List)
+			if oe.Kind != ev.Value || len(ve) != 2 {
+				return h.Fail("read-from-string :start %d :end %d on %q: %s", runes(c.Starts[i]), end, c.Text, oe)
+			}
+			if ge := (result{kind: "objects", objs: ve[:1], text: render(ve[:1])}); !same(want, ge) {
+				return h.Fail("read-from-string :start %d :end %d differs on %q:\n   ReadString form %d: %s\n   got: %s", runes(c.Starts[i]), end, c.Text, i, want, ge)
+			}
+		}
 		p, ok := vals[1].(slip.Fixnum)
 		hi := len([]rune(c.Text))
 		if i+1 < nForms {
